@@ -41,7 +41,7 @@ ANCHORS = ['pfhedge.nn.functional:european_payoff',
 PYTEST_WORKLOAD = True  # thorough tier also runs /repo/tests with these passive monitors attached (DESIGN.md 2.7)
 DECIDING = ["payoff.european", "payoff.lookback", "payoff.american_binary", "payoff.european_binary",
             "payoff.forward_start", "payoff.realized_variance", "derivative.payoff_fn", "clauses.order", "clauses.registry", "relations"]
-REQUIRED_BRANCHES = ["forward_start.end_before_last_step", "clauses.same_callable_registered_twice", "payoff_after_resimulation", "tie_with_unrepresentable_strike", "tie_with_strike", "call", "put", "T=1", "T=2"]
+REQUIRED_BRANCHES = ["contract_terms_reassigned", "forward_start.end_before_last_step", "clauses.same_callable_registered_twice", "payoff_after_resimulation", "tie_with_unrepresentable_strike", "tie_with_strike", "call", "put", "T=1", "T=2"]
 
 _CTX = None
 MAXR = 12
@@ -444,6 +444,13 @@ def drv_derivative(ctx, k, rng):
     if d._pfv_kind == "varswap" and stock.spot.shape[1] < 2:
         return
     base = d.payoff()  # payoff_fn monitor judges the contract
+    if hasattr(d, "strike") and rng.random() < 0.35:
+        # the contract terms are plain public attributes (shown by repr): a strike sweep / flag flip on one object takes effect (judged by the monitor)
+        d.strike = float(pick(rng, [0.8, 1.0, 1.1, 1.3]))
+        if hasattr(d, "call") and d._pfv_kind in ("european", "lookback", "european_binary", "american_binary"):
+            d.call = not d.call
+        ctx.branch("contract_terms_reassigned")
+        base = d.payoff()
     if rng.random() < 0.4 and n_steps > 0:
         # new market data through the shared underlier: the payoff must be that of the *current* paths (judged again by the payoff_fn monitor)
         stock.simulate(n_paths=n, time_horizon=d.maturity)
